@@ -109,6 +109,37 @@ def gen_mixed(rng, tier, nworlds=None, per=None, logger=None):
     return cases
 
 
+def gen_c04(rng, tier):
+    cases = gen_mixed(rng, tier)
+    # checksum value sweep: the same request from many source ports (the reply checksum walks through the
+    # 16-bit space; includes the port for which the UDP/IPv6 checksum computes to zero)
+    w = World(rng, selfmode=False, denymode=False, key=(0, 0))
+    w.mac, w.cl_mac = MAC_ME, MAC_CL
+    w.cl6, w.my6 = bytes([0x20] * 16), bytes([0x30] * 16)
+    st = bytes.fromhex('000100002112a442') + bytes(12)
+    ports = range(0, 65536) if tier == 'thorough' else list(range(21400, 21600)) + [rng.below(65536) for _ in range(300)]
+    frames = [w.udp_frame(True, sp, 3478, st) for sp in ports]
+    cases.append(case(w, frames, ['udp6-checksum-sweep']))
+    if tier == 'thorough':
+        frames = [w.udp_frame(False, sp, 3478, st) for sp in range(0, 65536, 3)]
+        frames += [w.fip(v6, 58 if v6 else 1, (icmp6(128, 0, struct.pack('>HH', i, 0xffff) + b'\x00\x01', *w.addrs(True)) if v6 else icmp(8, 0, struct.pack('>HH', i, 0xffff) + b'\x00\x01')))
+                   for i in range(0, 65536, 5) for v6 in (False, True)]
+        cases.append(case(w, frames, ['checksum-sweep']))
+    return cases
+
+
+def gen_c02(rng, tier):
+    cases = gen_mixed(rng, tier)
+    w = World(rng, selfmode=True, denymode=True)
+    step = 1 if tier == 'thorough' else 97
+    frames = [eth(w.mac, w.cl_mac, ety, ipv4(w.cl4, w.my4, 1, icmp(8, 0, b'abcd'))) for ety in range(0, 65536, step)]
+    for proto in range(256):
+        frames.append(w.f4(proto, icmp(8, 0, b'abcdefgh') + bytes(20)))
+        frames.append(w.f6(proto, icmp6(128, 0, b'abcdefgh', w.cl6, w.my6) + bytes(20)))
+    cases.append(case(w, frames, ['ethertype-sweep', 'protocol-sweep']))
+    return cases
+
+
 def gen_c06(rng, tier):
     cases = []
     nw = 2 if tier == 'quick' else 12
@@ -148,30 +179,39 @@ def gen_flows(rng, tier, nflows=4, steps=60):
         w = World(rng, selfmode=rng.chance(1, 2), denymode=False, key=rng.choice([(0, 0), (rng.next(), rng.next())]))
         flows = []
         for _ in range(1 + rng.below(nflows)):
-            flows.append([rng.chance(1, 2), rng.u16(), rng.u16(), rng.u32()])   # v6, sport, dport, seq
+            flows.append([rng.chance(1, 2), rng.u16(), rng.u16(), rng.u32(), b''])   # v6, sport, dport, seq, pending remainder
         frames = []
         for _ in range(steps):
             fl = rng.choice(flows)
-            v6, sport, dport, seq = fl
+            v6, sport, dport, seq, pending = fl
             s, d = w.addrs(v6)
             ck = w.cookie(s, d, sport, dport)
+            # acknowledgement numbers of non-data segments: the valid cookie+1 is as likely as a random value
+            some_ack = rng.choice([(ck + 1) & 0xffffffff, (ck + 1) & 0xffffffff, (ck + 1 + rng.below(400)) & 0xffffffff, rng.u32()])
             k = rng.below(12)
             if k <= 3:
-                _, _, pl = gen.gen_app(rng, tcp=True)
-                pl = pl[:rng.choice([len(pl), len(pl), 1, 0, 3])]
-                ackd = rng.choice([1, 1, 1, 1, 0, 2, 0x80000000, 0xffffffff])
-                frames.append(w.tcp_frame(v6, sport, dport, seq, (ck + ackd) & 0xffffffff, rng.choice([0x18, 0x18, 0x19, 0x38, 0x1a]), pl))
+                if pending and rng.chance(2, 3):
+                    pl, fl[4] = pending, b''               # continuation of a request split earlier
+                else:
+                    _, _, pl = gen.gen_app(rng, tcp=True)
+                    if rng.chance(1, 3) and len(pl) > 8:
+                        cut = 1 + rng.below(len(pl) - 1)
+                        pl, fl[4] = pl[:cut], pl[cut:]
+                    else:
+                        pl = pl[:rng.choice([len(pl), len(pl), len(pl), 1, 0, 3])]
+                ackd = rng.choice([1, 1, 1, 1, 1, 0, 2, 0x80000000, 0xffffffff])
+                frames.append(w.tcp_frame(v6, sport, dport, seq, (ck + ackd) & 0xffffffff, rng.choice([0x18, 0x18, 0x18, 0x19, 0x38, 0x1a]), pl))
                 fl[3] = (seq + len(pl)) & 0xffffffff
             elif k == 4:
                 frames.append(w.tcp_frame(v6, sport, dport, seq, 0, 0x18, b'x'))          # ack = 0
             elif k == 5:
-                frames.append(w.tcp_frame(v6, sport, dport, seq, rng.u32(), 0x02))
+                frames.append(w.tcp_frame(v6, sport, dport, seq, some_ack, 0x02))
             elif k == 6:
-                frames.append(w.tcp_frame(v6, sport, dport, seq, rng.u32(), 0x11))
+                frames.append(w.tcp_frame(v6, sport, dport, seq, some_ack, 0x11))
             elif k == 7:
-                frames.append(w.tcp_frame(v6, sport, dport, seq, rng.u32(), rng.choice([0x10, 0x04])))
+                frames.append(w.tcp_frame(v6, sport, dport, seq, some_ack, rng.choice([0x10, 0x04, 0x14])))
             elif k == 8:
-                frames.append(w.tcp_frame(v6, sport, dport, seq, rng.u32(), rng.below(512), rng.bytes(rng.below(5))))
+                frames.append(w.tcp_frame(v6, sport, dport, seq, some_ack, rng.below(512), rng.bytes(rng.below(5))))
             elif k == 9:
                 frames.append(w.udp_frame(v6, sport, dport, gen.gen_app(rng)[2]))
             elif k == 10:
@@ -180,6 +220,40 @@ def gen_flows(rng, tier, nflows=4, steps=60):
                 # wrap-around: seq near 2^32
                 fl[3] = rng.choice([0xffffffff, 0xfffffffe, 0])
         cases.append(case(w, frames, ['flows']))
+    return cases
+
+
+def gen_reuse(rng, tier, n=None):
+    """a single 4-tuple (or two) living through several connections: complete requests of different
+    protocols, SYNs, FINs, RSTs in sequence — exercises stale per-flow state"""
+    cases = []
+    n = n or (150 if tier == 'quick' else 4000)
+    for _ in range(n):
+        w = World(rng, selfmode=False, denymode=False)
+        flows = [[rng.chance(1, 2), rng.u16(), rng.u16(), rng.u32()] for _ in range(1 + rng.below(2))]
+        frames = []
+        for _ in range(4 + rng.below(10)):
+            fl = rng.choice(flows)
+            v6, sport, dport, seq = fl
+            k = rng.below(8)
+            if k <= 3:
+                kind, fault, pl = gen.gen_app(rng, tcp=True, kinds=['http', 'rpc', 'ssh', 'smb1', 'smb2', 'ghost', 'http', 'rpc'])
+                if rng.chance(1, 4) and len(pl) > 6:
+                    cut = 1 + rng.below(len(pl) - 1)
+                    frames.append(w.data_frame(v6, sport, dport, seq, pl[:cut]))
+                    seq = (seq + cut) & 0xffffffff
+                    pl = pl[cut:]
+                frames.append(w.data_frame(v6, sport, dport, seq, pl))
+                fl[3] = (seq + len(pl)) & 0xffffffff
+            elif k == 4:
+                frames.append(w.tcp_frame(v6, sport, dport, rng.u32(), 0, 0x02))
+            elif k == 5:
+                frames.append(w.tcp_frame(v6, sport, dport, seq, rng.u32(), 0x11))
+            elif k == 6:
+                frames.append(w.tcp_frame(v6, sport, dport, seq, rng.u32(), rng.choice([0x04, 0x10, 0x14])))
+            else:
+                frames.append(w.udp_frame(v6, sport, dport, gen.gen_app(rng)[2]))
+        cases.append(case(w, frames, ['flow-reuse']))
     return cases
 
 
@@ -256,6 +330,14 @@ def gen_c01(rng, tier):
                 for lv in LEVELS:
                     w = World(rng, selfmode=bool(si), denymode=bool(di), logger=lg, level=lv)
                     cases.append(case(w, hostile_frames(rng, w, per), ['hostile', 'logger:' + lg, 'level:' + lv]))
+    # flow-reuse histories: a few 4-tuples that see SYN / data of different protocols / FIN / RST in sequence
+    # (stale per-flow parser state, poisoned-mutex cascades)
+    for fc in gen_flows(rng, tier, nflows=3, steps=80)[: (40 if tier == 'quick' else 1000)] + gen_reuse(rng, tier):
+        cfg = fc['ops'][0][1]
+        cfg['logger'] = rng.choice(LOGGERS)
+        cfg['level'] = rng.choice(LEVELS)
+        fc['tags'] = ['flow-reuse', 'logger:' + cfg['logger'], 'level:' + cfg['level']]
+        cases.append(fc)
     return cases
 
 
@@ -295,6 +377,13 @@ def gen_c05(rng, tier):
         # ICMPv4 / ICMPv6 type x code grids (sampled in quick, exhaustive over the cross in thorough)
         types4 = [8, 0, 3, 5, 11, 13, 15, 17] + [rng.below(256) for _ in range(8 if tier == 'quick' else 60)]
         types6 = [128, 135, 129, 136, 133, 134, 1, 2, 3] + [rng.below(256) for _ in range(8 if tier == 'quick' else 60)]
+        if tier == 'thorough' and wi < 2:
+            # exhaustive 256 x 256 type/code grid for both ICMP versions
+            for ty in range(256):
+                for code in range(256):
+                    frames.append(w.f4(1, icmp(ty, code, b'\x00\x01\x00\x02xy')))
+                    if ty != 135:
+                        frames.append(w.f6(58, icmp6(ty, code, b'\x00\x01\x00\x02xy', w.cl6, w.my6)))
         codes = [0, 0, 1, 255, rng.below(256)] + ([rng.below(256) for _ in range(10)] if tier == 'thorough' else [])
         for ty in types4:
             for code in codes:
@@ -396,6 +485,34 @@ def gen_c10(rng, tier):
         ops.append(('S', 'proto', 0, rng.below(2), s))
     c = acase(w, ops, ['matcher'])
     cases.append(c)
+    # segmented TCP flows: junk / partial signature first, then (the rest of) a request, same flow
+    ops = []
+    for _ in range(400 if tier == 'quick' else 8000):
+        _, _, req = gen.gen_app(rng, tcp=True, kinds=['http', 'ssh', 'ghost', 'rpc', 'smb1', 'smb2', 'http', 'ssh'])
+        k = rng.below(6)
+        if k == 0:
+            parts = [rng.choice([b'HELP\r\n', b'\r\n', b'x', rng.bytes(1 + rng.below(6)), b'QUIT\r\n', b'GE', b'\x00']), req]
+        elif k == 1 and len(req) > 2:
+            cut = 1 + rng.below(min(len(req) - 1, 12))
+            parts = [req[:cut], req[cut:]]
+        elif k == 2 and len(req) > 3:
+            a = 1 + rng.below(len(req) - 2)
+            b2 = a + 1 + rng.below(len(req) - a - 1)
+            parts = [req[:a], req[a:b2], req[b2:]]
+        elif k == 3:
+            parts = [req, rng.choice([b'GET / HTTP/1.1\r\n\r\n', b'SSH-2.0-x\r\n', rng.bytes(5)])]
+        elif k == 4:
+            parts = [rng.bytes(1 + rng.below(3)), rng.bytes(1 + rng.below(3)), req]
+        else:
+            parts = [req]
+        _ck[0] += 1
+        ck = _ck[0]
+        s4, d4 = w.addrs(False)
+        sp, dp = rng.u16(), rng.u16()
+        for part in parts:
+            if part:
+                ops.append(('A', 'tcp', s4, d4, sp, dp, ck, part))
+    cases.append(acase(w, ops, ['tcp-segmented-identification']))
     return cases
 
 
@@ -407,7 +524,7 @@ PROPS = {
                      'over all 2x2x3x6 configurations with real loggers attached and log arguments evaluated; non-trivial = distinct (frame, logger, level) '
                      'with an authorised destination MAC, i.e. processed beyond the Ethernet filter; judge: no PANIC',
                 trusted=['panics are observed through catch_unwind in the hook driver; aborts that are not panics (allocation failure, stack overflow) are outside the model']),
-    'C10': dict(gen=gen_c10, judge='C10', proj=lambda r: r,
+    'C10': dict(gen=gen_c10, judge='C10', judge_mode='stream', proj=lambda r: r,
                 rule='matcher level: signature seeds truncated / extended / wildcard positions filled with bytes that are literals of other '
                      'signatures / mutated, one real search_next(+end) call each; application level: payload grammars of every protocol over UDP and '
                      'TCP, IPv4 and IPv6, random ports; non-trivial = payload whose reference identification is some signature (or, for replies, a '
@@ -434,12 +551,12 @@ PROPS = {
     'C20': dict(gen=gen_c20, judge='C20', judge_mode='log', proj=lambda r: None,
                 rule='structured and hostile frames with the real ConsoleLogger / LogfmtLogger attached; the stdout of the logger is parsed line by line; '
                      'non-trivial = frame that produced at least one event'),
-    'C02': dict(gen=lambda rng, tier: gen_mixed(rng, tier), judge='C02', proj=proj_headers,
+    'C02': dict(gen=gen_c02, judge='C02', proj=proj_headers,
                 rule='frames from the structured frame builder over configurations {self list on/off}x{deny list on/off}; '
                      'non-trivial = frame that C02 requires to be silent, or a reply under a configured self-IP list'),
     'C03': dict(gen=lambda rng, tier: gen_mixed(rng, tier), judge='C03', proj=proj_headers,
                 rule='frames from the structured frame builder; non-trivial = frame that elicited a reply (mirror relation evaluated)'),
-    'C04': dict(gen=lambda rng, tier: gen_mixed(rng, tier), judge='C04', proj=lambda r: r,
+    'C04': dict(gen=gen_c04, judge='C04', release=True, proj=lambda r: r,
                 rule='frames from the structured frame builder, payload sizes 0..4 KiB incl. odd; non-trivial = a reply was emitted and re-parsed / re-checksummed'),
     'C05': dict(gen=gen_c05, judge='C05', proj=lambda r: r,
                 rule='ARP operations x field variants x handled/unhandled targets; ICMPv4/ICMPv6 type x code grids with payload lengths 0..1472; '
@@ -570,6 +687,7 @@ def judge_lines(c, mode='frame'):
     """judge input for one case: cfg/reset lines and observation lines"""
     lines = []
     idx = []
+    streams = {}
     for i, (o, b) in enumerate(zip(c['ops'], c['impl'])):
         if o[0] in ('C', 'X'):
             lines.append(render(o, 'model'))
@@ -592,10 +710,15 @@ def judge_lines(c, mode='frame'):
             if parts[0].startswith('PANIC'):
                 lines.append('A %s %s %s %d %d %s %s PANIC 0' % (o[1], ip_model(o[2]), ip_model(o[3]), o[4], o[5], '-' if o[6] is None else o[6], hx(o[7])))
             else:
+                payload = o[7]
+                if mode == 'stream' and o[1] == 'tcp':
+                    # the identification is judged on the byte stream of the flow so far, however it was segmented
+                    streams[o[6]] = streams.get(o[6], b'') + o[7]
+                    payload = streams[o[6]]
                 lines.append('A %s %s %s %d %d %s %s %s %s' % (o[1], ip_model(o[2]), ip_model(o[3]), o[4], o[5], '-' if o[6] is None else o[6],
-                                                             hx(o[7]), parts[0], parts[1] if len(parts) > 1 else '0'))
+                                                             hx(payload), parts[0], parts[1] if len(parts) > 1 else '0'))
             idx.append(i)
-        elif o[0] == 'S' and mode == 'frame':
+        elif o[0] == 'S' and mode in ('frame', 'stream'):
             parts = (b['r'] or 'none 0 0').split()
             if parts[0] != 'PANIC':
                 lines.append('M %d %s %s' % (o[3], hx(o[4]), parts[0]))
@@ -997,11 +1120,53 @@ def explore_c19(prop, pd, tier, rng, corpus_cases):
                 ops.append(app_op(rng, w, pl, tcp=tcp, v6=v6, sport=sp, dport=dp))
                 variants.append(len(ops) - 1)
         groups.append((kind, fault, tcp, pl, variants))
+    # frame level: the same UDP payload through real frames, including the source port for which the request's
+    # UDP checksum field is 0xFFFF (computed 0) and, over IPv4, a request without checksum (field 0)
+    fgroups = []
+    for _ in range(8 if tier == 'quick' else 60):
+        kind, fault, pl = gen.gen_app(rng, tcp=False, kinds=['dns', 'stun', 'rpc', 'http', 'ssh'])
+        variants = []
+        for v6 in (False, True):
+            s_, d_ = w.addrs(v6)
+            dport = rng.choice([53, 3478, 111, rng.u16()])
+            special = None
+            for sp in range(65536):
+                h = struct.pack('>HHHH', sp, dport, 8 + len(pl), 0)
+                if csum16(pseudo(s_, d_, 17, 8 + len(pl)) + h + pl) == 0:
+                    special = sp
+                    break
+            for sp in [rng.u16(), 0, 65535] + ([special] if special is not None else []):
+                ops.append(('F', w.udp_frame(v6, sp, dport, pl)))
+                variants.append(len(ops) - 1)
+            if not v6:
+                ops.append(('F', w.f4(17, udp(rng.u16(), dport, pl))))       # checksum field 0: no checksum
+                variants.append(len(ops) - 1)
+        fgroups.append((kind, fault, pl, variants))
     c = {'ops': ops, 'tags': ['ports-versions']}
     run_cases([c])
     violations, disagreements, samples = [], [], []
     nontrivial = 0
     dist = {}
+    for kind, fault, pl, variants in fgroups:
+        outs = []
+        for i in variants:
+            r = c['impl'][i]['r']
+            if outcome(r) == 'reply':
+                d = split_reply(bytes.fromhex(r))
+                reqf = c['ops'][i][1]
+                rq = split_reply(reqf)
+                delta = (d['udp'][0] - rq['udp'][1]) % 65536 if 'udp' in d and 'udp' in rq else None
+                outs.append(canon_app((d.get('app') or b'').hex() or '-', delta))
+            else:
+                outs.append((outcome(r), 0) if outcome(r) != 'silent' else ('silent', 0))
+        outs = [o if o[0] != 'silent' else ('silent',) for o in outs]
+        if any(o[0] != 'silent' for o in outs):
+            nontrivial += 1
+        if len(set(o[:-1] if o[0] not in ('silent',) and isinstance(o[-1], int) and False else o for o in outs)) != 1:
+            bad = next(i for i, o in enumerate(outs) if o != outs[0])
+            violations.append({'clause': 'answer to the same UDP payload depends on ports / IP version / checksum representation (frame level): variant %d differs' % bad,
+                               'ops': [op_to_json(ops[0]), ['X'], op_to_json(ops[variants[0]]), op_to_json(ops[variants[bad]])],
+                               'tags': [kind, str(fault), 'frame-level'], 'outs': [str(outs[0])[:200], str(outs[bad])[:200]]})
     for kind, fault, tcp, pl, variants in groups:
         outs = []
         for i in variants:
@@ -1155,6 +1320,14 @@ def explore_c12(prop, pd, tier, rng, corpus_cases):
         v6 = rng.chance(1, 2)
         frames.append(('tcp-synack', w.tcp_frame(v6, rng.u16(), rng.u16(), rng.u32(), rng.u32(), 0x12, rng.choice([b'', b'x']))))
         frames.append(('tcp-rst', w.tcp_frame(v6, rng.u16(), rng.u16(), rng.u32(), rng.u32(), rng.choice([0x04, 0x14]))))
+        # reply-typed segments that carry data and acknowledge the valid cookie (TCP Fast Open SYN|ACK, RST with text),
+        # the second one on a flow that already has a control block
+        sp, dp = rng.u16(), rng.u16()
+        fl = rng.choice([0x12, 0x14, 0x04, 0x12 | 0x40, 0x14 | 0x20])
+        pl = rng.choice([b'x', b'GET / HTTP/1.1\r\n\r\n', gen.gen_app(rng, tcp=True)[2] or b'y'])
+        frames.append(('tcp-reply-flags-with-data', w.data_frame(v6, sp, dp, rng.u32(), pl, flags=fl)))
+        frames.append(('tcp-data', w.data_frame(v6, sp, dp, 7, b'GET / HT')))
+        frames.append(('tcp-reply-flags-with-data', w.data_frame(v6, sp, dp, rng.u32(), pl, flags=fl, ackdelta=rng.choice([1, 5]))))
     l2case = case(w, [f for _, f in frames], ['reply-typed-l2l4'])
     # --- application reply-typed messages: own replies re-addressed, and generated ones; chains
     seeds = []
@@ -1222,6 +1395,8 @@ def explore_c12(prop, pd, tier, rng, corpus_cases):
             break
     run_cases([l2case])
     for (name, f), b in zip(frames, l2case['impl'][2:]):
+        if name == 'tcp-data':
+            continue
         if outcome(b['r']) == 'reply':
             violations.append({'clause': '%s elicited a reply' % name, 'ops': [op_to_json(l2case['ops'][0]), ['X'], op_to_json(('F', f))], 'tags': [name]})
     compared, exact = _corr(chain_cases + [l2case], lambda o, b: b['r'], disagreements)
